@@ -132,6 +132,54 @@ fn verifier_matrix(args: &Args, rep: &mut Report) {
             run_point(rep, &mut cache, alg, len, now, set_kind, &mut rng, "random");
         }
     }
+    // histories on ONE verifier object: the verdict for (certificate, now) must not depend on what
+    // the same verifier was asked before (no memo of earlier acceptances or refusals)
+    let n_hist = if args.thorough { 400 } else { 40 };
+    for hi in 0..n_hist {
+        let pool: Vec<(Alg, i64, bool)> = vec![
+            (Alg::P256, *rng.pick(&[DAY, 14 * DAY - 1, 14 * DAY]), true),
+            (Alg::P256, *rng.pick(&[14 * DAY + 1, 15 * DAY]), true),
+            (*rng.pick(&[Alg::P384, Alg::Ed25519]), DAY, true),
+            (Alg::P256, 1, rng.chance(1, 2)),
+        ];
+        let mut set = vec![];
+        for (alg, len, pinned) in &pool {
+            let g = cache.entry((*alg, *len)).or_insert_with(|| gen_cert(*alg, NB, *len));
+            if *pinned {
+                set.push(Sha256Digest::new(sha256(&g.der)));
+            }
+        }
+        let v = ServerHashVerification::new(set);
+        let mut history = vec![];
+        for step in 0..rng.usize(3, 10) {
+            // the first call is biased towards an acceptance, the rest roam around the window
+            let (alg, len, pinned) = if step == 0 { pool[0] } else { *rng.pick(&pool) };
+            let now = if step == 0 {
+                NB + len / 2
+            } else {
+                match rng.below(5) {
+                    0 => NB - 1 - rng.below(400 * DAY as u64) as i64,
+                    1 => NB + len + 1 + rng.below(400 * DAY as u64) as i64,
+                    2 => NB + len,
+                    3 => NB,
+                    _ => NB + rng.range(0, len as u64) as i64,
+                }
+            };
+            let want = pinned && now >= NB && now <= NB + len && len <= 14 * DAY && alg == Alg::P256;
+            let der = rustls_pki_types::CertificateDer::from(cache[&(alg, len)].der.clone());
+            let got = v.verify_server_cert(&der, &[], &server_name, &[], rustls_pki_types::UnixTime::since_unix_epoch(Duration::from_secs(now as u64))).is_ok();
+            history.push(format!("({alg:?},{}s,pinned={pinned},now=nb{:+})->{}", len, now - NB, if got { "Ok" } else { "Err" }));
+            rep.eval(format!("verifier-history|step={}|{alg:?}|{}|want={want}", step.min(3), len_class(len)));
+            if got != want {
+                rep.violation(
+                    format!("C10|verifier-history|{}", if got { "accepted" } else { "refused" }),
+                    format!("history #{hi} on one verifier: {} — the last verdict should be {}", history.join(" ; "), if want { "Ok" } else { "Err" }),
+                    J::obj([("history", J::s(history.join(" ; ")))]),
+                );
+                break;
+            }
+        }
+    }
     rep.count("certificates_generated", cache.len() as u64);
     rep.sample(J::obj([("verifier_point", J::s("P256, validity 14d+1s, now=not_before, set={hash}")), ("expected", J::s("refused (validity > 14 days)"))]));
 }
